@@ -169,7 +169,7 @@ var C10 = &sim.Scenario{
 	Components: components,
 	Runs: func(th bool) int {
 		if th {
-			return 400000
+			return 3000000
 		}
 		return 20000
 	},
